@@ -568,6 +568,47 @@ func genTbls(rng *hx.Rng, tier string, w *hx.Writer, mode string) error {
 		}
 		tblsCase(rng, w, s, ents, mode)
 	}
+	// (d) polynomials whose public-share evaluation at one member adds a point to itself (the same
+	// element reached along two computations): that member's true share must verify, the identity
+	// under its index must not, and t-1 genuine shares plus the forged one stay below the threshold
+	nc := 6
+	if tier == "thorough" {
+		nc = 80
+	}
+	for it := 0; it < nc; it++ {
+		n := 3 + rng.Intn(4)
+		t := 2 + rng.Intn(n-1)
+		if t > 4 {
+			t = 4
+		}
+		s := newSetup(rng, t, n)
+		victim := 1 + rng.Intn(n-1)
+		base := randCoeffs(rng, t, BnQ)
+		if it%2 == 0 {
+			for k := 1; k < t; k++ { // large coefficients (their multiples wrap around the order)
+				base[k] = new(big.Int).Sub(BnQ, big.NewInt(int64(1+rng.Intn(50))))
+			}
+		}
+		s.coeffs = craftFor(base, victim, BnQ)
+		if s.coeffs[t-1].Sign() == 0 {
+			continue
+		}
+		s.pub = share.NewPubPoly(Bn.G2(), nil, points(Bn.G2(), s.coeffs, BnQ))
+		d := s.shareLog(victim, s.coeffs, s.hm)
+		trueShare := sigEnt{"valid", withIndex(victim, g1Bytes(d)), victim, d}
+		forged := sigEnt{"identity", withIndex(victim, make([]byte, 64)), victim, big.NewInt(0)}
+		tblsVerifyCase(rng, w, s, trueShare, s.msg, s.pub, s.coeffs, "verify-crafted-polynomial")
+		tblsVerifyCase(rng, w, s, forged, s.msg, s.pub, s.coeffs, "verify-crafted-polynomial")
+		var others []sigEnt
+		for _, i := range rng.Perm(n) {
+			if i != victim && len(others) < t-1 {
+				di := s.shareLog(i, s.coeffs, s.hm)
+				others = append(others, sigEnt{"valid", withIndex(i, g1Bytes(di)), i, di})
+			}
+		}
+		tblsCase(rng, w, s, append([]sigEnt{forged}, others...), mode)    // below the threshold
+		tblsCase(rng, w, s, append([]sigEnt{trueShare}, others...), mode) // exactly the threshold
+	}
 	return nil
 }
 
